@@ -313,13 +313,13 @@ static FILE *g_trace = NULL;
 static inline void crashHandler(int sig)
 {
     char b[160];
-    int n = snprintf(b, sizeof b, "\n{\"e\":\"Crash\",\"sig\":%d,\"stage\":\"%s\"}\n", sig, g_stage);
+    int n = snprintf(b, sizeof b, "\n{\"e\":\"Crash\",\"o\":\"crash\",\"sig\":%d,\"stage\":\"%s\"}\n", sig, g_stage);
     if(g_trace) { fflush(g_trace); (void)!write(fileno(g_trace), b, (size_t)n); }
     _exit(70);
 }
 static inline void terminateHandler()
 {
-    const char *b = "\n{\"e\":\"Crash\",\"sig\":-1,\"stage\":\"terminate\"}\n";
+    const char *b = "\n{\"e\":\"Crash\",\"o\":\"crash\",\"sig\":-1,\"stage\":\"terminate\"}\n";
     if(g_trace) { fflush(g_trace); (void)!write(fileno(g_trace), b, strlen(b)); }
     _exit(71);
 }
